@@ -17,7 +17,7 @@ func verifRefSha(name string) string {
 		"1111111111111111111111111111111111111111",
 		"2222222222222222222222222222222222222222",
 		"3333333333333333333333333333333333333333",
-	}[verifChoose(name, 3)]
+	}[verifChoose(name, verifBound("sha.pool", 2, 3))]
 }
 
 func verifBranch(name string) string {
@@ -48,7 +48,7 @@ func VerifC03_SkippedRefs() {
 		git.VerifCachedRefs = append(git.VerifCachedRefs, &git.Ref{Name: verifBranch("cached.name"), Type: git.RefTypeRemoteBranch, Sha: verifRefSha("cached.sha")})
 	}
 	for k := 0; k < na; k++ {
-		git.VerifActualRefs = append(git.VerifActualRefs, &git.Ref{Name: verifBranch("actual.name"), Type: git.RefTypeRemoteBranch, Sha: verifRefSha("actual.sha")})
+		git.VerifActualRefs = append(git.VerifActualRefs, &git.Ref{Name: verifBranch("actual.name"), Type: git.RefTypeRemoteBranch, Sha: "4444444444444444444444444444444444444444"}) // the server-side id of a branch is never used
 	}
 	git.VerifLsRemoteFails = false
 	onServer := func(name string) bool {
